@@ -126,7 +126,7 @@ void OPNMIDIplay::applySetup()
     else
         synth.setVolumeScaleModel(static_cast<OPNMIDI_VolumeModels>(m_setup.VolumeModel));
 
-    if(m_setup.VolumeModel == OPNMIDI_VolumeModel_AUTO)
+    if(m_setup.VolumeModel == OPNMIDI_VolumeModel_AUTO && m_setup.LogarithmicVolumes == 0)
         synth.m_volumeScale = static_cast<Synth::VolumesScale>(synth.m_insBankSetup.volumeModel);
 
     synth.m_numChips    = m_setup.numChips;
